@@ -129,7 +129,7 @@ func getSchemaSets(newSchemas []*client.SchemaDescription) [][]*client.SchemaDes
 				old := schema.relations
 				schema.relations = make([]string, len(schema.relations)-1)
 				if i > 0 {
-					copy(schema.relations, old[:i-1])
+					copy(schema.relations, old[:i])
 				}
 				copy(schema.relations[i:], old[i+1:])
 				schemasWithRelations[schema.name] = schema
@@ -245,6 +245,11 @@ func mapSchemaSetIDs(
 				schemaSetIds[schema.name] = schemaSetId
 				circleID = schemaSetId
 			}
+		} else if id, ok := schemaSetIds[relation]; ok {
+			// The relation does not circle back to this schema, but it has already been
+			// assigned a setID (e.g. as a member of a previously discovered circle), it
+			// must keep it.
+			circleID = id
 		} else {
 			// If this schema and its relations does not circle back to itself, we
 			// increment `i` and assign the new value to this schema *only*
